@@ -519,7 +519,19 @@ def rule_no_inplace_growth_(ctx: Ctx, rep: Report) -> None:
     rule_no_inplace_growth(ctx, rep, "C20.no_inplace_growth", ('btclib.',), 1)
 
 
+def rule_signer_arm(ctx: Ctx, rep: Report) -> None:
+    """C20.signer_arm: "answers do not depend on ... the backend having been switched
+    back and forth": an object that laid its state out for one arm at construction
+    (a key in the bindings' buffer, or an int) never asks the dispatch predicate
+    again -- asked later, a switch in between selects an arm the state was not
+    built for (C04's token rule, for every token class)."""
+    from rules.C04 import token_reask
+    token_reask(ctx, rep, "C20.signer_arm", None)
+    rep.floor("C20.signer_arm", 4)
+
+
 RULES = [
+    ("C20.signer_arm", rule_signer_arm),
     ("C20.no_inplace_growth", rule_no_inplace_growth_),
     ("C20.nonce_consumed", rule_nonce_consumed),
     ("C20.flag_checked", rule_flag_checked),
